@@ -31,7 +31,18 @@ CFG = dict(
                "(C01_plain_equals_null_aware; for fdiff position by position, whole outputs when the effective min_periods <= 1, "
                "masked warm-up otherwise). Weights in the literature's recurrence form, negative and decreasing in magnitude for 0 < d < 1; "
                "the repository's own unit-test vectors (test_fdiff_coef, test_fdiff) derived exactly. window = 0 is rejected by both fractional differences (C01_fdiff_window0). "
-               "Not covered by theorems: order d = NaN, binary64 rounding (correspondence only). The model is tied to the code "
+               "Binary64 (theorems about the execution instance at Coq's primitive float, Flocq's IEEE operations; Proofs/RoundMean.v, "
+               "(B1)-(B10); these rest additionally on Classical_Prop.classic and the standard library's FloatAxioms specification of the "
+               "primitive floats): the rolling MEAN after any history is within ((1+u)^(m+1) - 1) * H / n + 2^-1075 of the exact window "
+               "mean (m <= 2i+1 operations so far, H <= 2 * sum |x| of the history; premise: the output is finite, w < 2^53); and on a "
+               "dyadic grid (valid elements multiples of 2^e, every window's sum of |x|^K < 2^(K e + 53), K <= 4) no product, addition "
+               "or subtraction of the moment accumulator rounds: the float state holds the count and the first K power sums of the "
+               "window EXACTLY, equals the state of the option-R run (C01_moment_state_exact_on_grid; the instances differ only in the "
+               "closed form of emit), window-locally — DESIGN 2.3's claim for the generated inputs (k/4, |k| <= 400, windows <= 64) is "
+               "C01_generated_inputs_in_range, and there the rolling mean is the correctly rounded exact window mean "
+               "(C01_ts_vmean_correctly_rounded_on_grid). "
+               "Not covered by theorems: order d = NaN; binary64 rounding of the closed forms var / std / skew / kurt (cancellation; "
+               "notes/C11.md X19) and of ewm / wma / fdiff (correspondence only). The model is tied to the code "
                "by ~14k differential cases per run at Coq's binary64.",
     level_note="Trusted: Coq kernel + Reals axioms (sig_forall_dec, sig_not_dec, functional_extensionality_dep); the model of "
                "features.rs/rolling.rs; IEEE rounding is outside the theorems (exact reals) and absorbed by the 1e-9 tolerance; "
